@@ -22,6 +22,12 @@ tvars == <<vars, l, skip, csize, calign>>
 TInit == /\ InitWith("arr", 1, "value", "colour", 1, 1)
          /\ l = 1 /\ skip = FALSE /\ csize = 1 /\ calign = 1
 
+(* TLC breaks a printed tuple over several lines once it is longer than 80 characters, and the driver reads
+   REJECT lines one by one: the REJECT tuple is kept short and what the model expected goes into ONE string *)
+Reject(line, expected) ==
+  /\ PrintT("MODEL|" \o ToString(line) \o "|" \o ToJson(expected))
+  /\ PrintT(<<"REJECT", line>>)
+
 (* observation of a buffer = the model's buffer; layout: an element is USize components wide and aligned
    like a component (size_of and align_of of both sides of every cast agree) *)
 Observed(e, b, cs, ca) ==
@@ -61,14 +67,14 @@ TReset ==
         /\ ret' = [op |-> "init", api |-> 0, err |-> OK, pre |-> b]
         /\ csize' = e.csize /\ calign' = e.calign
         /\ IF ok THEN skip' = FALSE
-           ELSE skip' = TRUE /\ PrintT(<<"REJECT", l, "declared", Declared(e.base, e.wrap), "initial", b>>)
+           ELSE skip' = TRUE /\ Reject(l, [declared |-> Declared(e.base, e.wrap), err |-> OK, buf |-> b])
   /\ l' = l + 1
 
 TCall ==
   /\ l <= Len(Rec) /\ Rec[l].ev = "cast" /\ ~skip
   /\ ModelStep(Rec[l])
   /\ IF Observed(Rec[l], buf', csize, calign) /\ Rec[l].err = ret'.err THEN skip' = FALSE
-     ELSE skip' = TRUE /\ PrintT(<<"REJECT", l, "model", ret'.err, buf'>>)
+     ELSE skip' = TRUE /\ Reject(l, [err |-> ret'.err, buf |-> buf'])
   /\ l' = l + 1 /\ UNCHANGED <<csize, calign>>
 
 TSkip ==
